@@ -2,6 +2,9 @@ import BronVerif.Drive.Common
 import BronVerif.Model.Hash.Keccak
 import BronVerif.Model.Hash.Sha2
 import BronVerif.Model.Hash.Blake2b
+import BronVerif.Model.Transcript
+import BronVerif.Model.H2C
+import BronVerif.Model.Curves
 /-! Driver handlers for C19. -/
 namespace BronVerif.Drive.C19
 open BronVerif BronVerif.Drive BronVerif.Hash
@@ -37,12 +40,103 @@ def hashModel (alg : String) (params : List String) : Option ByteArray :=
       hkdfExpand sha3_256 136 (hkdfExtract sha3_256 136 (← hexToBytes? salt) (← hexToBytes? ikm)) (← hexToBytes? info) (← n.toNat?)
   | _, _ => none
 
+/-! ### transcript scripts -/
+
+def hexToList? (s : String) : Option (List UInt8) := (hexToBytes? s).map (·.toList)
+
+def parseMsgs? (s : String) : Option (List (List UInt8)) :=
+  if s == "." then some [] else (s.splitOn "/").mapM hexToList?
+
+def parseCmd? (s : String) : Option Transcript.Cmd :=
+  match s.splitOn ":" with
+  | ["n", name] => do some (.new (← hexToList? name))
+  | ["d", i, tag] => do some (.domSep (← i.toNat?) (← hexToList? tag))
+  | ["a", i, label, ms] => do some (.append (← i.toNat?) (← hexToList? label) (← parseMsgs? ms))
+  | ["x", i, label, n] => do some (.extract (← i.toNat?) (← hexToList? label) (← n.toNat?))
+  | ["c", i] => do some (.clone (← i.toNat?))
+  | _ => none
+
+def renderEvent : Transcript.Event → String
+  | none => "err"
+  | some bs => bytesToHex (ByteArray.mk bs.toArray)
+
+/-- `tr <script>`: run the script on the transcript machine with the cSHAKE256 model -/
+def trModel (script : String) : Option String := do
+  let cmds ← (script.splitOn ";").mapM parseCmd?
+  let (_, evs) := Transcript.run Transcript.cshakeH [] cmds
+  some (joinComma (evs.map renderEvent))
+
+/-! ### RFC 9380 -/
+
+def xmdByName? : String → Option H2C.XmdHash
+  | "sha256" => some H2C.xmdSha256
+  | "sha512" => some H2C.xmdSha512
+  | "sha3_256" => some H2C.xmdSha3_256
+  | "blake2b512" => some H2C.xmdBlake2b512
+  | _ => none
+
+def renderExpand : Option ByteArray → String
+  | none => "panic"
+  | some b => bytesToHex b
+
+def xmdModel (args : List String) : Option String :=
+  match args with
+  | [h, dst, len, msg] => do
+    some (renderExpand (H2C.expandXmd (← xmdByName? h) (← hexToBytes? dst) (← hexToBytes? msg) (← len.toNat?)))
+  | _ => none
+
+def xofModel (args : List String) : Option String :=
+  match args with
+  | [x, k, dst, len, msg] => do
+    let X ← match x with
+      | "shake128" => some shake128
+      | "shake256" => some shake256
+      | _ => none
+    some (renderExpand (H2C.expandXof X (← k.toNat?) (← hexToBytes? dst) (← hexToBytes? msg) (← len.toNat?)))
+  | _ => none
+
+def h2fModel (args : List String) : Option String :=
+  match args with
+  | [p, h, L, dst, msg] => do
+    let hh ← xmdByName? h
+    match H2C.hashToField (H2C.expandXmd hh) (← hexToNat? p) (← L.toNat?) 1 (← hexToBytes? dst) (← hexToBytes? msg) with
+    | some [x] => some (natToHex x)
+    | _ => some "err"
+  | _ => none
+
 def handle (op : String) (args : List String) (rhs : String) : Verdict :=
   match op, args with
   | "hash", alg :: params =>
     match hashModel alg params with
     | some d => spec ("hash." ++ alg) (bytesToHex d) rhs
     | none => .unsupported ("C19 hash " ++ alg)
+  | "tr", [script] =>
+    match trModel script with
+    | some m => spec "transcript.output" m rhs
+    | none => .unsupported "C19 tr unparsable-script"
+  | "xmd", _ =>
+    match xmdModel args with
+    | some m => spec "rfc9380.expand_message_xmd" m rhs
+    | none => .unsupported "C19 xmd"
+  | "xof", _ =>
+    match xofModel args with
+    | some m => spec "rfc9380.expand_message_xof" m rhs
+    | none => .unsupported "C19 xof"
+  | "h2f", _ =>
+    match h2fModel args with
+    | some m => mirror m rhs
+    | none => .unsupported "C19 h2f"
+  | "h2c", [curve, _dst, _msg] =>
+    -- the map itself is not modelled (TODO): the property's membership clause is decided exactly
+    match Curves.byName? curve with
+    | none => .unsupported ("C19 h2c curve " ++ curve)
+    | some C =>
+      match Curves.parse? C rhs with
+      | none => .bad "h2c.output" ("not a point: " ++ rhs)
+      | some P =>
+        if !Curves.onCurve C P then .bad "h2c.on-curve" ("hash-to-curve output is not on " ++ curve)
+        else if !Curves.inSubgroup C P then .bad "h2c.subgroup" ("hash-to-curve output is not in the prime-order subgroup of " ++ curve)
+        else .ok
   | _, _ => .unsupported ("C19 op " ++ op)
 
 end BronVerif.Drive.C19
